@@ -219,17 +219,7 @@ func ruleR12_4(w *World, r *Report) {
 		owner  string
 		prefix string
 	}
-	check := func(fn *ssa.Function, owner string, consts map[int]string) {
-		if fn == nil {
-			r.Lost(owner)
-			return
-		}
-		ss := sprintfSites(fn)
-		if len(ss) != 1 {
-			r.Undecided(owner+"/lock name", u.Pos(fn.Pos()), fmt.Sprintf("%d format calls found, expected one", len(ss)))
-			return
-		}
-		s := ss[0]
+	checkSite := func(s sprintfSite, owner string, consts map[int]string) {
 		format := s.Format
 		var tys []types.Type
 		var names []string
@@ -264,15 +254,75 @@ func ruleR12_4(w *World, r *Report) {
 		r.Check(inj && roleOK, owner+"/lock name", u.Pos(s.Call.Pos()), fmt.Sprintf("%q over (%s): %s", out, strings.Join(names, ", "), why),
 			fmt.Sprintf("lock name %q over (%s): %s; expected an injective format over the collection number and the datatype key", out, strings.Join(names, ", "), why))
 	}
-	check(u.Fn(pService, "PushPullHandler", "getLockKey"), "PushPullHandler.getLockKey", nil)
-	check(u.Fn(pSnapshot, "Manager", "getLockKey"), "snapshot.Manager.getLockKey", nil)
-	// GetLockName: the prefix must be a constant at every call site
+	check := func(fn *ssa.Function, owner string, consts map[int]string) {
+		if fn == nil {
+			r.Lost(owner)
+			return
+		}
+		ss := sprintfSites(fn)
+		if len(ss) != 1 {
+			r.Undecided(owner+"/lock name", u.Pos(fn.Pos()), fmt.Sprintf("%d format calls found, expected one", len(ss)))
+			return
+		}
+		checkSite(ss[0], owner, consts)
+	}
 	gl := u.Fn(pSUtils, "", "GetLockName")
 	if gl == nil {
 		r.Lost("utils.GetLockName")
 		return
 	}
 	v := newCGView(u, false)
+	// every lock the server takes: the name handed to Managers.GetLock comes from a naming function with one
+	// format (checked), from utils.GetLockName (checked below, per call site), or from a format written in place
+	getLock := u.Fn(pSManagers, "Managers", "GetLock")
+	if getLock == nil {
+		r.Lost("managers.Managers.GetLock")
+		return
+	}
+	nLocks := 0
+	for _, c := range v.callers(getLock) {
+		args := c.Common().Args
+		if len(args) == 0 {
+			continue
+		}
+		nLocks++
+		owner := fnName(c.Parent())
+		for _, a := range resolvePhis(args[len(args)-1]) {
+			call, isCall := stripIface(a).(*ssa.Call)
+			if !isCall {
+				r.Bad(owner+"/lock name", u.Pos(c.Pos()), "the name of the lock taken here ("+exprName(a)+") is not produced by a format over (collection number, key)")
+				continue
+			}
+			callee := staticCallee(call)
+			switch {
+			case callee == gl:
+				// judged per call site below
+			case callee != nil && callee.Pkg != nil && callee.Pkg.Pkg.Path() == "fmt":
+				found := false
+				for _, s := range sprintfSites(c.Parent()) {
+					if s.Call == call {
+						found = true
+						checkSite(s, owner, nil)
+					}
+				}
+				if !found {
+					r.Undecided(owner+"/lock name", u.Pos(call.Pos()), "the format call that names the lock could not be read")
+				}
+			case callee != nil && isOrda(callee.Pkg.Pkg.Path()):
+				name := fnName(callee)
+				if callee.Pkg.Pkg.Path() == pSnapshot {
+					name = "snapshot." + name
+				}
+				check(callee, name, nil)
+			default:
+				r.Bad(owner+"/lock name", u.Pos(c.Pos()), "the name of the lock taken here ("+exprName(a)+") is not produced by a format over (collection number, key)")
+			}
+		}
+	}
+	if nLocks < 3 {
+		r.Lost(fmt.Sprintf("call sites of Managers.GetLock (found %d, expected the three sections push-pull, snapshot update, patch)", nLocks))
+	}
+	// GetLockName: the prefix must be a constant at every call site
 	prefix := ""
 	okConst := true
 	ncall := 0
